@@ -57,6 +57,9 @@ def split_markdown_hard_breaks(text: str) -> list[str]:
     return segments
 
 
+_code_span_re = re.compile(r"(?<!`)(`+)(?!`)(.+?)(?<!`)\1(?!`)", re.DOTALL)
+
+
 def _lone_backslash_at_end(line: str) -> int:
     """1 if the line ends in a literal (unescaped) backslash, which gets escaped at a line end."""
     return (len(line) - len(line.rstrip("\\"))) % 2
@@ -67,11 +70,17 @@ def _protect_trailing_backslashes(wrapped: str, is_last: bool) -> str:
     A literal backslash that wrapping leaves at the end of a line (as in `a \\ b` at a narrow
     width) would become a hard line break, so it is written as an escaped backslash.
     """
+    if "\\" not in wrapped:
+        return wrapped
+    # Not inside a code span that (exceptionally) continues on the next line.
+    code_spans = [m.span() for m in _code_span_re.finditer(wrapped)]
     lines = wrapped.split("\n")
+    end = -1
     for i, line in enumerate(lines):
+        end += len(line) + 1
         if i == len(lines) - 1 and is_last:
             break
-        if _lone_backslash_at_end(line):
+        if _lone_backslash_at_end(line) and not any(a < end <= b for a, b in code_spans):
             lines[i] = line + "\\"
     return "\n".join(lines)
 
